@@ -91,13 +91,21 @@ func c07One(e *c03Env, o *out, r *rng, rule c03Rule, mode string, allPerms bool)
 				inject = append(inject, c03KV{names(false), txt}, c03KV{names(false), txt2})
 			}
 		}
-		if strings.Contains(mode, "s") && last.ContainingOneof() != nil && !last.ContainingOneof().IsSynthetic() {
-			// a sibling of the oneof through the query
-			sibs := last.ContainingOneof().Fields()
-			sib := sibs.Get(r.intn(sibs.Len()))
-			if sib.Number() != last.Number() {
+		if strings.Contains(mode, "s") {
+			// a sibling of a oneof through the query: of the path-bound field itself, or of a message field on the way to it
+			// (setting the sibling replaces that parent as a whole)
+			for depth := len(fds) - 1; depth >= 0; depth-- {
+				step := fds[depth]
+				if step.ContainingOneof() == nil || step.ContainingOneof().IsSynthetic() {
+					continue
+				}
+				sibs := step.ContainingOneof().Fields()
+				sib := sibs.Get(r.intn(sibs.Len()))
+				if sib.Number() == step.Number() {
+					continue
+				}
 				prefix := ""
-				for _, fd := range fds[:len(fds)-1] {
+				for _, fd := range fds[:depth] {
 					prefix += string(fd.Name()) + "."
 				}
 				if sib.Message() != nil {
@@ -106,6 +114,7 @@ func c07One(e *c03Env, o *out, r *rng, rule c03Rule, mode string, allPerms bool)
 				} else {
 					inject = append(inject, c03KV{prefix + string(sib.Name()), c03ValueText(sib, c03GenValue(r, sib, true), 0)})
 				}
+				break
 			}
 		}
 	}
